@@ -123,7 +123,7 @@ def RA_reply_invoke(data):
 _dialog_baseline = {}
 
 
-def run_history(steps):
+def run_history(steps, dev_seg="segmentedBoth"):
     """steps: ["inject", [hex, ...]] | ["adv", dt] | ["dialog", seed, invoke, window, [[round, hex], ...]].  Returns (fails, stats)."""
     L = lablib()
     DeviceApp, ClientApp = LD.device_classes()
@@ -131,11 +131,12 @@ def run_history(steps):
     for st_ in steps:
         if st_[0] == "dialog" and st_[4] and (st_[1] % 2,) not in _dialog_baseline:
             run_history([["dialog", st_[1], st_[2], st_[3], []]])
-        if st_[0] == "segreq" and st_[4] is not None and ("segreq", st_[1] % 2) not in _dialog_baseline:
-            run_history([["segreq", st_[1], st_[2], st_[3], None]])
+        if st_[0] == "segreq" and ("segreq", st_[1] % 2) not in _dialog_baseline:
+            if st_[4] is not None or dev_seg != "segmentedBoth":
+                run_history([["segreq", st_[1], st_[2], st_[3], None]])
     lab = StackLab()
     boot.swallowed.take()
-    dev = lab.add_stack(2, DeviceApp, segmentation="segmentedBoth", max_apdu=1024, max_segs=16, retries=1, apdu_timeout=1000, seg_timeout=500, app_timeout=3000)
+    dev = lab.add_stack(2, DeviceApp, segmentation=dev_seg, max_apdu=1024, max_segs=16, retries=1, apdu_timeout=1000, seg_timeout=500, app_timeout=3000)
     LD.populate(dev)
     dev.app.record_iam = True          # the device keeps what its peers announce about themselves
     att = lab.add_attacker(99)
@@ -313,8 +314,11 @@ def run_history(steps):
                         nxt += 1
                     lab.settle()
                 base = _dialog_baseline.get(("segreq", si % 2))
-                if glitch_at is None:
+                if glitch_at is None and dev_seg == "segmentedBoth":
                     _dialog_baseline[("segreq", si % 2)] = reply
+                elif glitch_at is None and base is not None and reply != base:
+                    fails.append(("segmented-request:device-%s:%s" % (dev_seg, "no-answer" if reply is None else "other-answer"),
+                                  "a device configured %s was sent a request in %d segments and answered %r; a device that supports both directions answers %r" % (dev_seg, nseg, reply and reply[:3], base and base[:3])))
                 elif base is not None and reply != base:
                     fails.append(("segmented-request:damaged-sequence-number:%s" % ("no-answer" if reply is None else "other-answer"),
                                   "a request of %d segments (window %d) whose segment after %d arrived with a damaged sequence number, resumed as the negative ack said, was answered %r; sent properly it is answered %r"
@@ -598,7 +602,7 @@ def judge(case):
                 # an unmutated seed: attach the expectation to the first frame
                 fails, stats = run_history_expect(steps, case["expect"], case.get("name"))
             else:
-                fails, stats = run_history(steps)
+                fails, stats = run_history(steps, case.get("dev_seg", "segmentedBoth"))
     except Stall:
         return Verdict([("stall", "the lab did not come back within 120 s of real time")], True, ("stall",))
     nt = stats["rejected_deeper"] > 0 or stats["mixed_instants"] > 0
@@ -778,6 +782,11 @@ def run(spec, ctx):
         segreq = st.tuples(st.just("segreq"), st.integers(0, 1), st.just(110), st.sampled_from([1, 2, 3, 4, 8]), st.one_of(st.none(), st.integers(1, 6))).map(list)
         strat = st.tuples(st.lists(step, max_size=2), segreq, st.lists(step, max_size=2)).map(lambda t: dict(k="h", steps=t[0] + [t[1]] + t[2]))
         ctx.for_all(strat, max(50, spec["n"] // 5), salt=6)
+        # a device that can only RECEIVE segments takes a segmented request all the same (its answers here fit one APDU)
+        for si_ in (0, 1):
+            for w_ in (1, 2, 4):
+                for g_ in (None, 1, 2):
+                    ctx.check(dict(k="h", steps=[["segreq", si_, 110, w_, g_]], dev_seg="segmentedReceive"))
     elif kind == "iam":
         # the requester has announced itself (I-Am with every segmentation support x max-APDU), then asks with and without the
         # segmented-response-accepted bit, for every kind of answer; a second I-Am may arrive between the requests
